@@ -296,7 +296,12 @@ pub fn run_c12(ctx: &Ctx, rng: &mut Rng, tier: Tier, bin: &str) -> Outcome {
     // test cases that look like command-line syntax: behind `--` every argument is a test case, and a hyphen means "read standard
     // input" only when it is the single argument; on the other channels they are ordinary lines
     let hyphen: Vec<Vec<String>> = [vec!["-", "a", "b"], vec!["a", "-"], vec!["-", "-x-", "-x-x-"], vec!["-", "-"], vec!["--"], vec!["--", "a"],
-        vec!["-f"], vec!["-f", "-"], vec!["-r", "aa"], vec!["--help"], vec!["-h", "-V"], vec!["--digits", "1"], vec!["-", ""], vec!["a", "-", "b"]]
+        vec!["-f"], vec!["-f", "-"], vec!["-r", "aa"], vec!["--help"], vec!["-h", "-V"], vec!["--digits", "1"], vec!["-", ""], vec!["a", "-", "b"],
+        // a carriage return inside a test case is text (only the one in front of a line feed belongs to the line ending)
+        vec!["a\rb", "c"], vec!["\rx"], vec!["p\rq\rr", "p"]]
+        .iter().map(|l| l.iter().map(|t| t.to_string()).collect()).collect();
+    // … and at the end of a test case when the file has CRLF line endings (`str::lines` drops one carriage return per line)
+    let cr_end: Vec<Vec<String>> = [vec!["abc\r", "xyz"], vec!["xyz", "abc\r"], vec!["\r", "a"], vec!["a\r\r", "b"]]
         .iter().map(|l| l.iter().map(|t| t.to_string()).collect()).collect();
     let all_bits: Vec<u32> = (0..15).collect();
     let flags = gen::flag_rows(rng, &all_bits);
@@ -338,6 +343,14 @@ pub fn run_c12(ctx: &Ctx, rng: &mut Rng, tier: Tier, bin: &str) -> Outcome {
                 if channel == 0 {
                     jobs.push(Job { case: Case { tcs: t.clone(), cfg: Cfg::new(*fl) }, channel, crlf: false, final_nl: true, short: j % 2 == 1 });
                 }
+            }
+        }
+    }
+    for (k, t) in cr_end.iter().enumerate() {
+        for channel in 0..4usize {
+            for fl in [0u32, mask(&[BIT_REP])] {
+                // arguments carry the test case as it is; through a file or standard input a final carriage return needs CRLF endings
+                jobs.push(Job { case: Case { tcs: t.clone(), cfg: Cfg::new(fl) }, channel, crlf: true, final_nl: k % 2 == 0, short: false });
             }
         }
     }
